@@ -22,6 +22,10 @@ pub enum Cond {
     TypeIs(usize, usize, bool, bool),
     /// `x == nil` / `x ~= nil`; last flag: `nil` written on the left (rendering only)
     IsNil(usize, bool, bool),
+    /// `x == <lit>` / `x ~= <lit>` (lit: boolean, integer, float or string); last flag: literal on the left
+    EqLit(usize, Lit, bool, bool),
+    /// `t_x == "T"` / `t_x ~= "T"` for the preamble local `t_x = type(v_x)`
+    Stored(usize, usize, bool),
     Not(Box<Cond>),
     And(Box<Cond>, Box<Cond>),
     Or(Box<Cond>, Box<Cond>),
@@ -45,6 +49,8 @@ pub enum Stmt {
     ForIn(u32, Vec<Stmt>),
     /// C41: `if c then break end`
     BreakIf(Cond),
+    /// C41 diagnostics oracle only (never sent to the model): `local _u = v:upper()`
+    Use(usize),
 }
 
 #[derive(Clone, Debug, PartialEq)]
@@ -65,6 +71,18 @@ struct R {
     tbl: u32,
     probe: u32,
     ind: usize,
+    /// `type()` name index of the initial value of each variable
+    init_tn: Vec<usize>,
+}
+
+pub fn lit_tname(l: &Option<Lit>) -> usize {
+    match l {
+        None | Some(Lit::Nil) => 0,
+        Some(Lit::Bool(_)) => 1,
+        Some(Lit::Int(_)) | Some(Lit::Flt(_)) => 2,
+        Some(Lit::Str(_)) => 3,
+        Some(Lit::Tbl) => 4,
+    }
 }
 
 impl R {
@@ -110,6 +128,23 @@ impl R {
                 self.toks.extend(["z".to_string(), x.to_string(), (*neg as u8).to_string()]);
                 let op = if *neg { "~=" } else { "==" };
                 if *swap { format!("nil {op} v{x}") } else { format!("v{x} {op} nil") }
+            }
+            Cond::EqLit(x, l, neg, swap) => {
+                let (lua, tok) = self.lit(l);
+                self.toks.extend(["q".to_string(), x.to_string(), tok, (*neg as u8).to_string()]);
+                let op = if *neg { "~=" } else { "==" };
+                if *swap { format!("{lua} {op} v{x}") } else { format!("v{x} {op} {lua}") }
+            }
+            Cond::Stored(x, t, neg) => {
+                self.toks.extend([
+                    "t".to_string(),
+                    x.to_string(),
+                    TNAMES[self.init_tn[*x]].to_string(),
+                    TNAMES[*t].to_string(),
+                    (*neg as u8).to_string(),
+                ]);
+                let op = if *neg { "~=" } else { "==" };
+                format!("t{x} {op} \"{}\"", TNAMES[*t])
             }
             Cond::Not(c) => {
                 self.toks.push("!".into());
@@ -214,6 +249,9 @@ impl R {
                 self.block(b);
                 self.line("end");
             }
+            Stmt::Use(x) => {
+                self.line(&format!("local _u = v{x}:upper()"));
+            }
             Stmt::BreakIf(c) => {
                 self.toks.push("K".into());
                 let cs = self.cond(c);
@@ -225,7 +263,8 @@ impl R {
 
 impl Prog {
     pub fn render(&self) -> Rendered {
-        let mut r = R { lua: String::new(), toks: Vec::new(), tbl: 0, probe: 0, ind: 0 };
+        let init_tn = self.decls.iter().map(lit_tname).collect();
+        let mut r = R { lua: String::new(), toks: Vec::new(), tbl: 0, probe: 0, ind: 0, init_tn };
         r.toks.push(self.decls.len().to_string());
         for (i, d) in self.decls.iter().enumerate() {
             match d {
@@ -240,12 +279,110 @@ impl Prog {
                 }
             }
         }
+        // preamble locals holding `type(v_x)` for every variable with a stored-type guard
+        for x in self.stored_vars() {
+            r.line(&format!("local t{x} = type(v{x})"));
+        }
         r.toks.push("{".into());
         for s in &self.body {
             r.stmt(s);
         }
         r.toks.push("}".into());
         Rendered { lua: r.lua, tokens: r.toks.join(","), probes: r.probe as usize }
+    }
+
+    /// every condition of the program, in document order
+    pub fn conds(&self) -> Vec<&Cond> {
+        fn c<'a>(v: &'a [Stmt], out: &mut Vec<&'a Cond>) {
+            for s in v {
+                match s {
+                    Stmt::If(c0, t, ei, e) => {
+                        out.push(c0);
+                        c(t, out);
+                        for (ci, x) in ei {
+                            out.push(ci);
+                            c(x, out);
+                        }
+                        if let Some(x) = e {
+                            c(x, out);
+                        }
+                    }
+                    Stmt::While(c0, x) => {
+                        out.push(c0);
+                        c(x, out);
+                    }
+                    Stmt::Repeat(x, c0) => {
+                        c(x, out);
+                        out.push(c0);
+                    }
+                    Stmt::WhileTrue(x) | Stmt::ForNum(_, _, x) | Stmt::ForIn(_, x) => c(x, out),
+                    Stmt::BreakIf(c0) => out.push(c0),
+                    _ => {}
+                }
+            }
+        }
+        let mut out = Vec::new();
+        c(&self.body, &mut out);
+        out
+    }
+
+    pub fn stored_vars(&self) -> Vec<usize> {
+        fn l(c: &Cond, out: &mut Vec<usize>) {
+            match c {
+                Cond::Stored(x, ..) => {
+                    if !out.contains(x) {
+                        out.push(*x);
+                    }
+                }
+                Cond::Not(c) => l(c, out),
+                Cond::And(a, b) | Cond::Or(a, b) => {
+                    l(a, out);
+                    l(b, out);
+                }
+                _ => {}
+            }
+        }
+        let mut out = Vec::new();
+        for c in self.conds() {
+            l(c, &mut out);
+        }
+        out.sort();
+        out
+    }
+
+    /// guard kinds used (for the evidence distribution)
+    pub fn guard_kinds(&self) -> Vec<&'static str> {
+        fn l(c: &Cond, out: &mut Vec<&'static str>) {
+            let k = match c {
+                Cond::Truthy(_) => "truthy",
+                Cond::TypeIs(..) => "type_call",
+                Cond::IsNil(..) => "eq_nil",
+                Cond::EqLit(..) => "eq_literal",
+                Cond::Stored(..) => "stored_type",
+                Cond::Not(c) => {
+                    l(c, out);
+                    "not"
+                }
+                Cond::And(a, b) => {
+                    l(a, out);
+                    l(b, out);
+                    "and"
+                }
+                Cond::Or(a, b) => {
+                    l(a, out);
+                    l(b, out);
+                    "or"
+                }
+            };
+            if !out.contains(&k) {
+                out.push(k);
+            }
+        }
+        let mut out = Vec::new();
+        for c in self.conds() {
+            l(c, &mut out);
+        }
+        out
     }
 
     pub fn has_loop(&self) -> bool {
@@ -345,6 +482,20 @@ fn parse_cond(t: &[&str], i: &mut usize) -> Option<Cond> {
             let neg = *t.get(*i + 1)? == "1";
             *i += 2;
             Cond::IsNil(x, neg, false)
+        }
+        "q" => {
+            let x = t.get(*i)?.parse().ok()?;
+            let l = parse_lit(t.get(*i + 1)?)?;
+            let neg = *t.get(*i + 2)? == "1";
+            *i += 3;
+            Cond::EqLit(x, l, neg, false)
+        }
+        "t" => {
+            let x = t.get(*i)?.parse().ok()?;
+            let tn = TNAMES.iter().position(|n| n == t.get(*i + 2).unwrap_or(&""))?;
+            let neg = *t.get(*i + 3)? == "1";
+            *i += 4;
+            Cond::Stored(x, tn, neg)
         }
         "!" => Cond::Not(Box::new(parse_cond(t, i)?)),
         "&" => {
@@ -461,6 +612,20 @@ pub fn gen_lit(rng: &mut Rng) -> Lit {
 
 pub fn gen_cond(rng: &mut Rng, nv: usize, depth: usize, logic: bool) -> Cond {
     let k = if logic && depth > 0 { rng.below(10) } else { rng.below(6) };
+    if k < 6 && rng.chance(1, 4) {
+        // the newer guard kinds
+        return if rng.chance(2, 3) {
+            let l = match rng.below(5) {
+                0 => Lit::Bool(rng.chance(1, 2)),
+                1 | 2 => Lit::Int(rng.below(3) as u32 + 1),
+                3 => Lit::Flt(rng.below(2) as u32 + 1),
+                _ => Lit::Str(rng.below(3) as u32 + 1),
+            };
+            Cond::EqLit(rng.below(nv), l, rng.chance(1, 3), rng.chance(1, 6))
+        } else {
+            Cond::Stored(rng.below(nv), rng.below(TNAMES.len()), rng.chance(1, 3))
+        };
+    }
     match k {
         0 | 1 => Cond::Truthy(rng.below(nv)),
         2 | 3 => Cond::TypeIs(rng.below(nv), rng.below(TNAMES.len()), rng.chance(1, 3), rng.chance(1, 6)),
@@ -596,6 +761,9 @@ fn gen_block(rng: &mut Rng, cfg: &GenCfg, nv: usize, depth: usize, in_loop: bool
 }
 
 fn gen_truthy_lit(rng: &mut Rng) -> Lit {
+    if rng.chance(1, 3) {
+        return Lit::Str(rng.below(3) as u32 + 1);
+    }
     match rng.below(5) {
         0 => Lit::Bool(true),
         1 => Lit::Int(rng.below(3) as u32 + 1),
